@@ -121,18 +121,18 @@ TEXT = {
   "technique": "Coq proof (conformance of every written frame to the independent specification decoder, all 15 types; API histories by invariant) + extracted strict specification decoder as judge of WriteTo output",
  },
  "C03": {
-  "level": "Theorem C03_valid_frames (Properties/C03.v): for every abstract frame of the specification model - any of the fifteen types, the properties "
-           "table 2-4 allows in any order, once-only identifiers at most once, explicit zero values, empty strings, every legal short form, strings up to "
-           "65 535 bytes, no bound on the number of properties, filters or reason codes - the bytes of the specification's encoder are read by ReadPacket "
-           "under any delivery, without error, as a packet of the matching type whose accessors equal the specification's reading (frame_obs). The one "
-           "excluded case is DISCONNECT carrying a property other than user properties: known finding D13, for which C03_refuted (Findings/) proves the "
-           "unrestricted statement false of the model and the oracle reports KNOWN-FINDING. Also C03_ack_short, C03_short_forms, C03_fields. Tied to the "
-           "source by the regenerated decoder IR and property maps (sync lemmas), fingerprints, correspondence, and the acceptance oracle driven by the "
-           "extracted specification encoder.",
-  "note": NOTE + " Known finding D13 is listed in KNOWN_FINDINGS.txt and reported as KNOWN-FINDING. The statement quantifies over frames written by the "
-          "specification's encoder; C03_spec_consistent proves its strict decoder returns exactly those frames from those bytes; that the decoder "
-          "accepts no other byte string (uniqueness of the encoding) is not proved.",
-  "technique": "Coq proof (acceptance of every specification-encoded frame, any property order, for all 15 types; refutation witness for D13) + specification-encoder-driven acceptance oracle",
+  "level": "Theorem C03_every_valid_frame (Properties/C03.v): every byte string the independent strict decoder of the specification model accepts - any of the "
+           "fifteen types, the properties table 2-4 allows in any order, once-only identifiers at most once, explicit zero values, empty strings, every "
+           "legal short form, strings up to 65 535 bytes, no bound on the number of properties, filters or reason codes - is read by ReadPacket under any "
+           "delivery, without error, as a packet of the matching type whose accessors equal the specification's reading (frame_obs). The one excluded "
+           "case is DISCONNECT carrying a property other than user properties: known finding D13, for which C03_refuted (Findings/) proves the "
+           "unrestricted statement false of the model and the oracle reports KNOWN-FINDING. C03_spec_language: the strict decoder accepts exactly the "
+           "encodings of valid abstract frames (both directions), so the quantification over frames (C03_valid_frames) and over byte strings coincide. "
+           "Tied to the source by the regenerated decoder IR and property maps (sync lemmas), fingerprints, correspondence, and the acceptance oracle "
+           "driven by the extracted specification encoder.",
+  "note": NOTE + " Known finding D13 is listed in KNOWN_FINDINGS.txt and reported as KNOWN-FINDING. The specification model is my transcription of the OASIS "
+          "text and part of the trusted base.",
+  "technique": "Coq proof (acceptance of every byte string the specification decoder accepts, any property order, all 15 types; refutation witness for D13) + specification-encoder-driven acceptance oracle",
  },
  "C09": {
   "level": "Theorems C09a_* (each field decoder reports a cut strictly inside the field, for every value and interior position; a frame ending before a "
